@@ -318,9 +318,10 @@ static void batt_add(EVP_MD_CTX *md, Buf *b, int strip_time) {
     b_put32(b, 2, (uint32_t)b->n);
     Rsp r = run_raw(b->p, (uint32_t)b->n);
     (void)strip_time;
+    if (g_resp_dump) { fprintf(g_resp_dump, "batt cc=%x ", g32(b->p + 6)); for (size_t i = 10; i < b->n && i < 40; i++) fprintf(g_resp_dump, "%02x", b->p[i]); fprintf(g_resp_dump, " -> "); for (uint32_t i = 0; i < r.len; i++) fprintf(g_resp_dump, "%02x", r.p[i]); fputc('\n', g_resp_dump); }
     EVP_DigestUpdate(md, &r.len, 4); EVP_DigestUpdate(md, r.p, r.len);
 }
-/* mode 0: full (volatile + persistent observables, no clock); mode 1: persistent entities only */
+/* mode 0: full (volatile + persistent observables, no clock); mode 1: persistent entities only; mode 2: mode 1 + orderly counters; mode 3: mode 1 + all orderly NV indices */
 static void battery(World *w, Buf *b, int mode, uint8_t out[32]) {
     EVP_MD_CTX *md = EVP_MD_CTX_new(); EVP_DigestInit_ex(md, EVP_sha256(), NULL);
     int save_trace = 0; (void)save_trace;
@@ -336,8 +337,8 @@ static void battery(World *w, Buf *b, int mode, uint8_t out[32]) {
         for (int i = 0; i < w->nobj; i++) { cmd_begin(b, ST_NO_SESSIONS, CC_ReadPublic); b_u32(b, w->obj[i].h); batt_add(md, b, 0); }
         for (int i = 0; i < w->nsess; i++) if (w->sess[i].policy) { cmd_begin(b, ST_NO_SESSIONS, CC_PolicyGetDigest); b_u32(b, w->sess[i].h); batt_add(md, b, 0); }
     } else {
-        static const uint32_t caps[][2] = { {1, 0x81000000}, {1, 0x01000000}, {5, 0} };
-        for (unsigned i = 0; i < 3; i++) { cmd_begin(b, ST_NO_SESSIONS, CC_GetCapability); b_u32(b, caps[i][0]); b_u32(b, caps[i][1]); b_u32(b, 200); batt_add(md, b, 0); }
+        static const uint32_t caps[][2] = { {1, 0x81000000}, {1, 0x01000000} };
+        for (unsigned i = 0; i < 2; i++) { cmd_begin(b, ST_NO_SESSIONS, CC_GetCapability); b_u32(b, caps[i][0]); b_u32(b, caps[i][1]); b_u32(b, 200); batt_add(md, b, 0); }
         /* DA parameters (not the counter), disableClear etc. */
         for (uint32_t pt = 0x200 + 15; pt <= 0x200 + 17; pt++) { cmd_begin(b, ST_NO_SESSIONS, CC_GetCapability); b_u32(b, 6); b_u32(b, pt); b_u32(b, 1); batt_add(md, b, 0); }
     }
@@ -345,9 +346,12 @@ static void battery(World *w, Buf *b, int mode, uint8_t out[32]) {
     for (int i = 0; i < w->nnv; i++) {
         WNv *n = &w->nv[i];
         if (mode == 0) { cmd_begin(b, ST_NO_SESSIONS, CC_NV_ReadPublic); b_u32(b, n->idx); batt_add(md, b, 0); }
-        int volatile_data = (n->attrs & (1u << 26)) || (n->attrs & (1u << 27));
+        /* orderly data: counters survive any orderly restart (mode 2); other orderly indices become unwritten at a TPM Reset
+           and survive only Resume/Restart (mode 3) */
+        int orderly = (n->attrs & (1u << 26)) != 0;
+        int volatile_data = (orderly && !(mode == 3 || (mode == 2 && n->type == 1))) || (n->attrs & (1u << 27));
         if (mode == 0 || !volatile_data) {
-            if (mode == 1 && (n->attrs & (1u << 31))) continue;       /* read lock state differs across reset */
+            if (mode != 0 && (n->attrs & (1u << 31))) continue;       /* read lock state differs across reset */
             cmd_begin(b, ST_SESSIONS, CC_NV_Read); b_u32(b, RH_OWNER); b_u32(b, n->idx); auth_pw_s(b, w->ownerAuth); b_u16(b, n->size > 512 ? 512 : n->size); b_u16(b, 0); batt_add(md, b, 0);
         }
     }
